@@ -69,7 +69,7 @@ def cases_for(prop, root):
         if not os.path.exists(mp):
             continue
         meta = json.load(open(mp))
-        if meta.get('breaks_property') != prop:
+        if meta.get('breaks_property') != prop or meta.get('obsolete'):
             continue
         if not meta.get('expected_detected', meta.get('detected_by_quick_check')):
             continue
